@@ -105,8 +105,21 @@ def dynamicCollect (g : ObjGraph) : List (Str × Option Str) :=
 
 /-! ## what importing a module binds -/
 
-def ownFacts (modname : Str) (doc : Option Doc) : Facts :=
-  { module := some modname, globalsName := some modname, doc := doc.map (·.text) }
+/-- attributes of a function object whose `__module__` is this module; `gname` is the `__name__` of the
+    namespace it was compiled in (`__globals__`) -/
+def ownFacts (modname gname : Str) (doc : Option Doc) : Facts :=
+  { module := some modname, globalsName := some gname, doc := doc.map (·.text) }
+
+def isExtDeco (d : Deco) : Bool :=
+  match d with
+  | .ext _ => true
+  | _ => false
+
+/-- where the bound function object was compiled: a decorator imported from another module may return a
+    `functools.wraps` wrapper made THERE (its `__module__`, `__name__`, `__doc__` are copied from the
+    decorated function, its `__globals__` are the other module's) -/
+def globalsOf (modname other : Str) (decos : List Deco) : Str :=
+  if decos.any isExtDeco then other else modname
 
 def wrapOf (decos : List Deco) : Wrap :=
   match decos with
@@ -118,8 +131,9 @@ def wrapOf (decos : List Deco) : Wrap :=
   | _ => .none
 
 /-- the object a `def` statement binds -/
-def funcItem (modname : Str) (decos : List Deco) (doc : Option Doc) : Item :=
-  { valid := true, wrap := wrapOf decos, self := ownFacts modname doc, inner := ownFacts modname doc }
+def funcItem (modname other : Str) (decos : List Deco) (doc : Option Doc) : Item :=
+  { valid := true, wrap := wrapOf decos, self := ownFacts modname (globalsOf modname other decos) doc,
+    inner := ownFacts modname (globalsOf modname other decos) doc }
 
 /-- an object defined in another module -/
 def externalItem (other : Str) : Item :=
@@ -134,7 +148,7 @@ def bindsCls (modname other : Str) : Tree → List (Str × Item)
   | .done => []
   | .func _ name decos doc _ next =>
     -- `@p.setter def p` re-binds `p` to a property with the same getter: no visible change
-    (if skipDeco decos then [] else [(name, funcItem modname decos doc)]) ++ bindsCls modname other next
+    (if skipDeco decos then [] else [(name, funcItem modname other decos doc)]) ++ bindsCls modname other next
   | .cls name _ _ _ next => (name, nestedClassItem modname) :: bindsCls modname other next
   | .ifs _ r1 r2 body orelse next =>
     (if r1 then bindsCls modname other body else []) ++ (if r2 then bindsCls modname other orelse else [])
@@ -146,9 +160,9 @@ def bindsCls (modname other : Str) : Tree → List (Str × Item)
 def bindsTop (modname other : Str) : Tree → List (Str × Val)
   | .done => []
   | .func _ name decos doc _ next =>
-    (name, .item (funcItem modname decos doc)) :: bindsTop modname other next
+    (name, .item (funcItem modname other decos doc)) :: bindsTop modname other next
   | .cls name _ doc body next =>
-    (name, .cls (ownFacts modname doc |> fun f => { f with globalsName := none })
+    (name, .cls (ownFacts modname modname doc |> fun f => { f with globalsName := none })
                 (setAll (bindsCls modname other body) [])) :: bindsTop modname other next
   | .ifs _ r1 r2 body orelse next =>
     (if r1 then bindsTop modname other body else []) ++ (if r2 then bindsTop modname other orelse else [])
